@@ -15,6 +15,7 @@
 (*           sees the flags left by the earlier visits (IntrospectWalks!   *)
 (*           Visit is the transcription of the callbacks)                  *)
 (*   write   GIRWriter: the abstract GIR of the final flags                *)
+(*           (Stepwise = FALSE: walks and writer are one action, Finish)   *)
 (*   done    property layer: Closed(gir)   (tla/IntrospectProp.tla)       *)
 (*                                                                         *)
 (* Namespace order.  ast.Namespace.walk iterates an OrderedDict in         *)
@@ -39,6 +40,8 @@ CONSTANTS
     AllowVSkip,   \* (skip) annotations on parameters / return values
     AllowReturn,  \* callables whose one site is the return value
     AllowMoved,   \* functions that are backwards-compatibility copies (moved-to)
+    AllowHost,    \* functions that are methods of a record (walked at the record's position)
+    AllowRename,  \* functions carrying (rename-to <the method set_p of a class>): a target in another container
     MaxFunctions, \* functions are sinks (nothing refers to them): more than one adds nothing
     Stepwise,     \* TRUE: one action per walk; FALSE: validate() as one action (their composition, Run)
     COrder,       \* only graphs declarable in C in namespace order
@@ -55,7 +58,7 @@ Nodes == 1..N
 
 TypeDefining(k) == k \in {"alias", "callback", "record", "enum", "class"}
 Pos(o, n) == CHOOSE i \in DOMAIN o : o[i] = n
-EmptyGir == [ns |-> "", avail |-> <<>>, partial |-> <<>>, defs |-> <<>>, uses |-> <<>>, idx |-> <<>>, pairs |-> <<>>]
+EmptyGir == [ns |-> "", avail |-> <<>>, partial |-> <<>>, inferred |-> TRUE, defs |-> <<>>, uses |-> <<>>, idx |-> <<>>, pairs |-> <<>>]
 
 Init ==
     /\ pc = "build" /\ built = 0 /\ nodes = <<>> /\ st = <<>> /\ gir = EmptyGir /\ rej = {}
@@ -108,6 +111,9 @@ NodeRecs(n) ==
     LET k == kinds[n] IN
     [kind : {k}, nskip : IF AllowNSkip THEN BOOLEAN ELSE {FALSE},
      moved : IF AllowMoved /\ k = "function" THEN BOOLEAN ELSE {FALSE},
+     ren : IF AllowRename /\ k = "function" THEN {0} \cup {c \in Nodes : kinds[c] = "class"} ELSE {0},
+     host : IF AllowHost /\ k = "function"
+              THEN {0} \cup {h \in Nodes : kinds[h] = "record" /\ (COrder => Pos(order, h) < Pos(order, n))} ELSE {0},
      site : IF k = "class" THEN Sites(n, "param")
             ELSE IF Roles(k) = {} THEN {NoSite} ELSE UNION {Sites(n, r) : r \in Roles(k)},
      psite : IF k = "class" THEN Sites(n, "property") ELSE {NoSite},
@@ -117,7 +123,7 @@ NodeRecs(n) ==
 
 Build ==
     /\ pc = "build" /\ built < N
-    /\ \E r \in NodeRecs(built + 1) : nodes' = Append(nodes, r)
+    /\ \E r \in NodeRecs(built + 1) : (r.host # 0 => (~r.moved /\ r.ren = 0)) /\ nodes' = Append(nodes, r)
     /\ built' = built + 1
     /\ UNCHANGED <<pc, kinds, order, st, gir, rej>>
 
@@ -131,15 +137,15 @@ Case == [nodes |-> nodes, order |-> order]
 
 \* can a C header declare the nodes in namespace order ?  (typedef names are declared before use)
 CDeclarable(g, o) ==
-    \A n \in DOMAIN g : (g[n].kind \in {"alias", "callback", "function"} /\ g[n].site.tk = "node"
-                            /\ g[g[n].site.tgt].kind # "class") => Pos(o, g[n].site.tgt) < Pos(o, n)
+    \A n \in DOMAIN g : /\ (g[n].kind \in {"alias", "callback", "function"} /\ g[n].site.tk = "node"
+                             /\ g[g[n].site.tgt].kind # "class") => Pos(o, g[n].site.tgt) < Pos(o, n)
+                          /\ (g[n].host # 0 => Pos(o, g[n].host) < Pos(o, n))
 OrderTag == IF CDeclarable(nodes, order) THEN "" ELSE "@use-before-declaration"
 
 StartWalks ==
-    /\ pc = "build" /\ built = N
+    /\ Stepwise /\ pc = "build" /\ built = N
     /\ \A n \in Nodes : AliasAcyclic(nodes, n, N)
-    /\ IF Stepwise THEN st' = InitSt(nodes) /\ pc' = WalkNames[1]
-                   ELSE st' = Run(Case) /\ pc' = "write"        \* IntrospectablePass.validate() at once
+    /\ st' = InitSt(nodes) /\ pc' = WalkNames[1]
     /\ UNCHANGED <<kinds, order, nodes, built, gir, rej>>
 
 ---------------------------------------------------------------------------
@@ -147,21 +153,22 @@ StartWalks ==
 NextPc(w) == LET i == CHOOSE j \in DOMAIN WalkNames : WalkNames[j] = w IN
              IF i = Len(WalkNames) THEN "write" ELSE WalkNames[i + 1]
 
-WalkStep(w) ==
-    /\ pc = w
+\* (TLC's coverage names an action after the innermost definition it unfolds before reaching a junction:
+\*  each walk action is a conjunction of its own so that -coverage reports the nine walks separately)
+WalkBody(w) ==
     /\ st' = Walk(w, Case, st)
     /\ pc' = NextPc(w)
     /\ UNCHANGED <<kinds, order, nodes, built, gir, rej>>
 
-AliasAnalysis     == WalkStep("alias")
-SkipPropagation   == WalkStep("skips")
-AnalyzeNode       == WalkStep("analyze")
-CallableAnalysis1 == WalkStep("callable1")
-CallableAnalysis2 == WalkStep("callable2")
-PropertyAnalysis  == WalkStep("property")
-Pass3             == WalkStep("pass3")
-BackcompatRemoval == WalkStep("backcompat")
-SymbolCollisions  == WalkStep("collisions")
+AliasAnalysis     == pc = "alias" /\ WalkBody("alias")
+SkipPropagation   == pc = "skips" /\ WalkBody("skips")
+AnalyzeNode       == pc = "analyze" /\ WalkBody("analyze")
+CallableAnalysis1 == pc = "callable1" /\ WalkBody("callable1")
+CallableAnalysis2 == pc = "callable2" /\ WalkBody("callable2")
+PropertyAnalysis  == pc = "property" /\ WalkBody("property")
+Pass3             == pc = "pass3" /\ WalkBody("pass3")
+BackcompatRemoval == pc = "backcompat" /\ WalkBody("backcompat")
+SymbolCollisions  == pc = "collisions" /\ WalkBody("collisions")
 
 \* cheap deterministic sampling key of a case
 TkIndex(tk) == CHOOSE i \in 1..9 : <<"fund", "any", "valist", "longlong", "longdouble", "varargs", "unres", "foreign", "node">>[i] = tk
@@ -176,27 +183,41 @@ Code(g) == CodeFrom(g, Len(g))
 
 \* export filter: a violating case is printed when it has no padding, i.e. every node that the rejected
 \* owners do not (transitively) refer to is a plain node (fundamental type, no flags)
-Tgts(g, n) == {s.tgt : s \in {x \in {g[n].site, g[n].psite, g[n].ssite} : x.tk = "node"}}
+Tgts(g, n) == {s.tgt : s \in {x \in {g[n].site, g[n].psite, g[n].ssite} : x.tk = "node"}} \cup (IF g[n].ren # 0 THEN {g[n].ren} ELSE {}) \cup (IF g[n].host # 0 THEN {g[n].host} ELSE {})
 RECURSIVE Reach(_, _, _)
 Reach(g, S, fuel) == IF fuel = 0 THEN S ELSE Reach(g, S \cup UNION {Tgts(g, n) : n \in S}, fuel - 1)
 Owners(R) == {n \in Nodes : \E r \in R : r[3] \in {QN[n], FieldId[n], MethId[n], VfId[n], SigId[n], PropId[n]}}
-Plain(r) == /\ ~r.nskip /\ ~r.moved /\ r.site.tk = "fund" /\ r.site.cont = "none" /\ ~r.site.vskip /\ r.site.role # "return"
+Plain(r) == /\ ~r.nskip /\ ~r.moved /\ r.ren = 0 /\ r.host = 0 /\ r.site.tk = "fund" /\ r.site.cont = "none" /\ ~r.site.vskip /\ r.site.role # "return"
             /\ r.psite.tk = "fund" /\ r.ssite.tk = "fund"
 Tight(g, R) == \A n \in Nodes \ Reach(g, Owners(R), N) : Plain(g[n])
+
+Export(R) ==
+    IF R # {} THEN (ExportViol > 0 /\ Tight(nodes, R)) =>
+                       PrintT(<<"C05CASE", "viol", {r[2] : r \in R}, Case, CDeclarable(nodes, order)>>)
+    ELSE (ExportOk > 0 /\ Code(nodes) % ExportOk = 0) =>
+                       PrintT(<<"C05CASE", "ok", {}, Case, CDeclarable(nodes, order)>>)
+Tagged(R) == LET tag == OrderTag IN {<<r[1], r[2] \o tag, r[3]>> : r \in R}
 
 Write ==
     /\ pc = "write"
     /\ gir' = GirOf(Case, st)
-    /\ rej' = LET tag == OrderTag IN {<<r[1], r[2] \o tag, r[3]>> : r \in Rejections(gir')}
+    /\ rej' = Tagged(Rejections(gir'))
     /\ pc' = "done"
-    /\ IF rej' # {} THEN (ExportViol > 0 /\ Tight(nodes, rej')) =>
-                           PrintT(<<"C05CASE", "viol", {r[2] : r \in rej'}, Case, CDeclarable(nodes, order)>>)
-       ELSE (ExportOk > 0 /\ Code(nodes) % ExportOk = 0) =>
-                           PrintT(<<"C05CASE", "ok", {}, Case, CDeclarable(nodes, order)>>)
+    /\ Export(rej')
     /\ UNCHANGED <<kinds, order, nodes, built, st>>
 
+\* Stepwise = FALSE: IntrospectablePass.validate() (Run: the composition of the nine walks) and the writer as one
+\* step; only the verdict is kept in the state (the abstract GIR is large: keeping it tripled the run time)
+Finish ==
+    /\ ~Stepwise /\ pc = "build" /\ built = N
+    /\ \A n \in Nodes : AliasAcyclic(nodes, n, N)
+    /\ rej' = Tagged(Rejections(GirOf(Case, Run(Case))))
+    /\ pc' = "done"
+    /\ Export(rej')
+    /\ UNCHANGED <<kinds, order, nodes, built, st, gir>>
+
 Next == Build \/ StartWalks \/ AliasAnalysis \/ SkipPropagation \/ AnalyzeNode \/ CallableAnalysis1
-        \/ CallableAnalysis2 \/ PropertyAnalysis \/ Pass3 \/ BackcompatRemoval \/ SymbolCollisions \/ Write
+        \/ CallableAnalysis2 \/ PropertyAnalysis \/ Pass3 \/ BackcompatRemoval \/ SymbolCollisions \/ Write \/ Finish
 
 Spec == Init /\ [][Next]_vars
 
